@@ -129,3 +129,33 @@ func VerifC08Conc() {
 	vapi.Assert(accepted <= 1, "C08: concurrent presentations of one packet are accepted at most once")
 	vapi.Reach("conc-end")
 }
+
+// VerifC08CleanRace: a clean-up pass of the replay memory overlapping with the first presentation of a packet:
+// whatever the interleaving, the presentation is remembered and a replay one second later is refused.
+func VerifC08CleanRace() {
+	vapi.SleepBlocks(true)
+	vapi.SetPreemptBound(vapi.Param("preempt", 2))
+	vConcrete = true
+	sta, _, pkt, ts := c08Setup()
+	vNowSec, vNowNsec = ts, 0
+	// entries for the pass to scan: one long expired, one recent
+	sta.UsedRandom[[32]byte{1}] = ts - 1000000
+	sta.UsedRandom[[32]byte{2}] = ts - 10
+	go sta.UsedRandomCleaner()
+	vapi.Quiesce() // cleaner parked in its Sleep
+	var err1 error
+	done := false
+	cp := append([]byte{}, pkt...)
+	go func() { _, _, err1 = AuthFirstPacket(cp, TLS{}, sta); done = true }()
+	vapi.WakeSleepers() // a pass starts now, racing with the presentation
+	vapi.Quiesce()
+	vapi.Assert(done && err1 == nil, "C08: the first presentation is accepted")
+	_, expired := sta.UsedRandom[[32]byte{1}]
+	_, recent := sta.UsedRandom[[32]byte{2}]
+	vapi.Assert(!expired && recent, "C08: the pass evicts exactly the entries whose window has closed")
+	vNowSec = ts + 1
+	cp2 := append([]byte{}, pkt...)
+	_, _, err2 := AuthFirstPacket(cp2, TLS{}, sta)
+	vapi.Assert(err2 != nil, "C08: a handshake accepted while a clean-up pass was running is still refused when replayed")
+	vapi.Reach("cleanrace-end")
+}
